@@ -47,6 +47,15 @@ def law_cases():
         ("def log = []; do do error 1 finally do error 2 finally append(log, 'inner') end end catch 2 append(log, 'two') end; log", ('text', "['inner', 'two']")),
         ("def log = []; do append(log, 1); error 'x'; append(log, 2) catch 'x' append(log, 3) end; log", ('text', "[1, 3]")),
     ]
+    # errors raised by the runtime carry the value 'ERROR' (that is what a handler has to name), at every kind of failing site
+    for site in ["1 / 0", "1.5 / 0", "1 / 0.0", "2.5 / 0.0", "1 % 0", "1.5 % 0", "7 % 0.0", "undefined_name_x", "[1, 2][5]", "'abc'[7]", "not 3", "1 and TRUE", "if 3 then 1",
+                 "while 's' do 1 end", "for x in 5 do x end", "[1] - NULL - 'a' * []", "(fn(a) a)()", "zz_undefined = 1", "<<<'a' => 1>>>['b']", "def [p, q] = 5",
+                 "int('x')", "decimal('y')", "date('notadate')", "sqrt('x')", "length(5)", "substr(1, 2)", "require NoSuchModuleXyz",
+                 "<*a = 1*>->b()", "parse('1 +')", "eval('1 +')", "pattern('(')", "lst_undefined[0] = 1", "[1][0][0]"]:
+        cases.append((f"do {site} catch 'ERROR' 'runtime error value' end", ('text', "'runtime error value'")))
+    cases += [
+        ("do 1 / 0 catch 'divide by zero' 'wrong' catch 'ERROR' 'right' end", ('text', "'right'")),
+    ]
     return cases
 
 
